@@ -434,3 +434,63 @@ def rigid_slip(tier, seed):
             fails.append({'obligation': 'rigid_slip.post', 'key': key, 'input': key, 'detail': '; '.join(msgs[:3])})
     files = {rel: hashlib.sha256(open(os.path.join(REPO, rel), 'rb').read()).hexdigest() for rel in (SLIPF, 'atomman/defect/disregistry.py', 'atomman/defect/DifferentialDisplacement.py')}
     return {'family': 'rigid slip of a half crystal', 'evaluations': evals, 'distinct_nontrivial': nontriv, 'rule': 'see group rule', 'samples': samples, 'failures': fails[:12], 'files': files}
+
+
+# ----------------------------------------------------------------------------
+# Strain: every cached result is dropped when the correspondence tensor is re-solved (rotation, strain, ... follow from the CURRENT G)
+
+import ast as _ast
+
+
+@group('strain.cache_invalidation', files=[STRF], functions=['Strain.clear_properties', 'Strain.solve_G', 'Strain property getters'],
+       clause='every attribute that a Strain property getter or solver fills lazily is reset by clear_properties (static: the set of cached attributes is read off the getters), '
+              'solve_G and the constructor go through clear_properties, and after clear_properties each derived property is recomputed from the current G (executed on a symbolic G '
+              'with stale sentinels in every cache)', replay=_replay)
+def strain_cache(E, L):
+    import os as _os
+    from pyvc.loader import cy2py
+    M = L.load(STRF)
+    text, _dropped = cy2py(open(_os.path.join(REPO, STRF), encoding='utf-8').read())
+    tree = _ast.parse(text)
+    cls = [n for n in _ast.walk(tree) if isinstance(n, _ast.ClassDef) and n.name == 'Strain'][0]
+    cached, cleared, calls_clear = set(), set(), set()
+    for fn in [n for n in cls.body if isinstance(n, _ast.FunctionDef)]:
+        is_getter = any(isinstance(d, _ast.Name) and d.id == 'property' for d in fn.decorator_list)
+        for node in _ast.walk(fn):
+            if isinstance(node, _ast.Assign):
+                for tgt in node.targets:
+                    if isinstance(tgt, _ast.Attribute) and isinstance(tgt.value, _ast.Name) and tgt.value.id == 'self' and tgt.attr.startswith('__'):
+                        if fn.name == 'clear_properties' and isinstance(node.value, _ast.Constant) and node.value.value is None:
+                            cleared.add(tgt.attr)
+                        elif is_getter or fn.name in ('solve_G', 'solve_nye'):
+                            cached.add(tgt.attr)
+            if isinstance(node, _ast.Call) and isinstance(node.func, _ast.Attribute) and node.func.attr == 'clear_properties':
+                calls_clear.add(fn.name)
+    E.prove('cache.cached_attributes_found', {'__strain', '__rotation', '__angularvelocity', '__invariant1', '__G', '__nye'} <= cached)
+    E.prove('cache.every_cached_attribute_is_cleared', cached <= cleared)
+    E.prove('cache.solvers_and_constructor_clear_first', {'solve_G', '__init__'} <= calls_clear)
+    # executed: stale sentinels everywhere, then clear, then read
+    G = E.reals('G', (1, 3, 3))
+    E.canary('strain.cache.canary', G[0, 0, 0] == G[0, 1, 1])
+    st = object.__new__(M.Strain)
+    for nm in cached | cleared:
+        setattr(st, '_Strain' + nm, 'STALE')
+    st.clear_properties()
+    E.prove('cache.cleared_at_run_time', all(getattr(st, '_Strain' + nm) is None for nm in cached))
+    st._Strain__G = G
+    want_strain = M.strain_c(G)
+    want_rot = M.rotation_c(G)
+    for j in range(3):
+        for k in range(3):
+            E.prove('cache.strain_recomputed[%d,%d]' % (j, k), st.strain[0, j, k] == want_strain[0, j, k])
+            E.prove('cache.rotation_recomputed[%d,%d]' % (j, k), st.rotation[0, j, k] == want_rot[0, j, k])
+    E.prove('cache.invariant_recomputed', st.invariant1[0] == want_strain[0, 0, 0] + want_strain[0, 1, 1] + want_strain[0, 2, 2])
+    E.prove('cache.angular_velocity_recomputed', st.angularvelocity[0] == M.angularvelocity_c(want_rot)[0])
+    # a second state on the same object: new G, clear, read again
+    G2 = E.reals('G2', (1, 3, 3))
+    st.clear_properties()
+    st._Strain__G = G2
+    for j in range(3):
+        for k in range(3):
+            E.prove('cache.rotation_follows_new_G[%d,%d]' % (j, k), st.rotation[0, j, k] == M.rotation_c(G2)[0, j, k])
+            E.prove('cache.strain_follows_new_G[%d,%d]' % (j, k), st.strain[0, j, k] == M.strain_c(G2)[0, j, k])
